@@ -57,6 +57,16 @@ def make_scenario(seed, i, tier):
             "order_model": ["fifo", "frames", "inverse", "uniform"][i % 4] if i < 8
             else rng.choice(SC.ORDER_MODELS)}
     scn = SC.gen_scenario(rng, prof)
+    if i % 4 == 1:
+        # wire fencing in the lower ensembles, shooting above, and a cap strictly inside: the
+        # configuration in which cap-dependent weights matter
+        n = scn["n_intf"] = max(4, scn["n_intf"])
+        nwf = rng.choice(range(1, n - 2)) if n > 3 else 1
+        scn["moves"] = ["sh"] + ["wf"] * nwf + ["sh"] * (n - 1 - nwf)
+        scn["cap"] = rng.choice(range(nwf, n - 1)) + 0.5
+        scn["workers"] = min(scn["workers"], n - 1)
+    elif i % 4 == 3:
+        scn["moves"][1] = "wf"          # [0+] with wire fencing: high-acceptance zero swaps
     nrestart = [0, 2, 1, 3][i % 4] if i < 8 else rng.choice([0, 0, 1, 2, 3])
     scn["nrestart"] = nrestart
     return scn
